@@ -1,6 +1,10 @@
 //! Loopback mock that answers everything: HTTP/1.1 requests get `200 OK` with
 //! `http_body`; anything else is treated as a Ribbit TCP command and answered
 //! with `ribbit_body`. One connection = one exchange (`Connection: close`).
+//!
+//! The mocks are stateless, so one listener per kind lives for the whole
+//! process on its own runtime thread (a listener per case exhausted the
+//! ephemeral port range of the shared machine through TIME_WAIT sockets).
 
 use tokio::io::{AsyncReadExt, AsyncWriteExt};
 use tokio::net::TcpListener;
@@ -61,4 +65,46 @@ pub async fn start(http_body: Vec<u8>, ribbit_body: Vec<u8>) -> std::io::Result<
         }
     });
     Ok(port)
+}
+
+fn spawn_global(http_body: Vec<u8>, ribbit_body: Vec<u8>) -> Result<u16, String> {
+    let (tx, rx) = std::sync::mpsc::channel();
+    std::thread::Builder::new()
+        .name("c20-mock".into())
+        .spawn(move || {
+            let rt = match tokio::runtime::Builder::new_multi_thread().worker_threads(2).enable_all().build() {
+                Ok(r) => r,
+                Err(e) => {
+                    let _ = tx.send(Err(e.to_string()));
+                    return;
+                }
+            };
+            rt.block_on(async move {
+                match start(http_body, ribbit_body).await {
+                    Ok(p) => {
+                        let _ = tx.send(Ok(p));
+                        std::future::pending::<()>().await;
+                    }
+                    Err(e) => {
+                        let _ = tx.send(Err(e.to_string()));
+                    }
+                }
+            });
+        })
+        .map_err(|e| e.to_string())?;
+    rx.recv().map_err(|e| e.to_string())?
+}
+
+/// port of the process-wide Ribbit/TACT mock (BPSV answers)
+pub fn ribbit_port() -> Result<u16, String> {
+    static P: std::sync::OnceLock<Result<u16, String>> = std::sync::OnceLock::new();
+    P.get_or_init(|| spawn_global(BPSV.as_bytes().to_vec(), format!("{BPSV}\n").into_bytes())).clone()
+}
+
+pub const CDN_BODY: &[u8] = b"MOCK-CDN-BODY";
+
+/// port of the process-wide CDN mock
+pub fn cdn_port() -> Result<u16, String> {
+    static P: std::sync::OnceLock<Result<u16, String>> = std::sync::OnceLock::new();
+    P.get_or_init(|| spawn_global(CDN_BODY.to_vec(), CDN_BODY.to_vec())).clone()
 }
